@@ -53,6 +53,8 @@ def catalogue():
     for m, amps in ((1, [[0.2], [-0.5]]), (2, [[0.1, -0.2], [0.0, THIRD]]), (3, [[0.1, 0.2, 0.3], [0.0, 0.0, -1.0]])):
         C[("PerturbedDroplet3DAxisSym", 3, m)] = [dict(position=[0.0, 0.0, [1.0, -2.5][i]], radius=1.5 + i, interface_width=[0.4, None][i], amplitudes=a) for i, a in enumerate(amps)]
         C[("PerturbedDroplet3DAxisSym", 3, m)].append(dict(position=[0.0, 0.0, 0.5], radius=0.0, interface_width=0.0, amplitudes=amps[0]))
+        # on the axis within the class' own tolerance, but not bitwise +0.0 (tiny offset, negative zero)
+        C[("PerturbedDroplet3DAxisSym", 3, m)].append(dict(position=[3e-9, -0.0, 0.75], radius=1.25, interface_width=0.3, amplitudes=amps[1]))
     return C
 
 
